@@ -1077,4 +1077,114 @@ theorem check_run (c : Case) (hd : inDomain c = true) (he : c.recs.all (embOk c.
   obtain ⟨w, hw, hc⟩ := checkRecs_ok c.tbl c.recs 0 none hd he
   simp [check, hd, run, hw, hc]
 
+/-! ### proofs of the readable statements of `Props` -/
+
+theorem bmp_len_exact_proof (r : Rec) (w : Bytes) (hb : isBmp r = true) (he : r.encode = some w)
+    (hl : w.length < 4294967296) :
+    ∃ body, w.length = 6 + body.length ∧ be ((w.drop 1).take 4) = w.length ∧
+      ∀ rest, readBmpCommon (w ++ rest) = some (3, bmpType r, body, rest) := by
+  have key : ∀ code body, code < 256 → w = bmpMsg code body →
+      w.length = 6 + body.length ∧ be ((w.drop 1).take 4) = w.length ∧
+        ∀ rest, readBmpCommon (w ++ rest) = some (3, code, body, rest) := by
+    intro code body hc hw
+    have hlen : w.length = 6 + body.length := by subst hw; simp [bmpMsg]; omega
+    refine ⟨hlen, ?_, fun rest => by subst hw; exact readBmpCommon_bmpMsg code body rest hc (by omega)⟩
+    subst hw
+    simp only [bmpMsg, u8, List.cons_append, List.nil_append, List.drop_succ_cons, List.drop_zero]
+    rw [List.take_left' (length_u32 _), be_u32_lt (by omega)]
+    exact hlen.symm
+  cases r with
+  | bmpRm h ap emb mon =>
+    cases emb with
+    | none => cases he
+    | some b => exact ⟨_, key 0 _ (by omega) (by simpa [Rec.encode] using he.symm)⟩
+  | bmpUp h la lp rp emb mL mR =>
+    cases emb with
+    | none => cases he
+    | some b => exact ⟨_, key 3 _ (by omega) (by simpa [Rec.encode] using he.symm)⟩
+  | bmpDown h rs =>
+    cases hr : rs.encode with
+    | none => simp [Rec.encode, hr] at he
+    | some e => exact ⟨_, key 2 _ (by omega) (by simpa [Rec.encode, hr] using he.symm)⟩
+  | bmpInit tlvs => exact ⟨_, key 4 _ (by omega) (by simpa [Rec.encode] using he.symm)⟩
+  | bmpStats => exact ⟨_, key 1 _ (by omega) (by simpa [Rec.encode] using he.symm)⟩
+  | bmpTerm => exact ⟨_, key 5 _ (by omega) (by simpa [Rec.encode] using he.symm)⟩
+  | bmpMirror => exact ⟨_, key 6 _ (by omega) (by simpa [Rec.encode] using he.symm)⟩
+  | mrtMp => cases hb
+  | tdPeers => cases hb
+  | tdRib => cases hb
+
+theorem bmp_vflag_iff_v6_proof (h : PeerHdr) (hd : hdrDom h = true) (rest : Bytes) :
+    ∃ p, readPph (h.encode ++ rest) = some (p, rest) ∧ h.encode.length = 42 ∧
+      (p.flags / 128 % 2 = 1 ↔ h.addr.isV6 = true) ∧ p.addr = addr16 h.addr ∧
+      firstFail (checkPph h p) = none := by
+  refine ⟨pphOf h, readPph_encode h hd rest, length_encode_hdr h hd, ?_, rfl, checkPph_ok h hd⟩
+  have := checkPph_ok h hd
+  simp only [checkPph, firstFail] at this
+  -- the second clause of checkPph is the V-flag equivalence
+  by_cases hp : (pphOf h).ptype = h.ptype
+  · simp only [decide_eq_true hp, firstFail] at this
+    by_cases hv : ((pphOf h).flags / 128 % 2 = 1 ↔ h.addr.isV6 = true)
+    · exact hv
+    · simp [decide_eq_false hv, firstFail] at this
+  · simp [decide_eq_false hp, firstFail] at this
+
+theorem mrt_len_exact_proof (r : Rec) (w : Bytes) (hb : isBmp r = false) (he : r.encode = some w)
+    (hts : match r with | .tdPeers ts .. => ts < 4294967296 | .tdRib _ ts .. => ts < 4294967296 | _ => True)
+    (hl : w.length < 4294967296) :
+    ∃ ts ty st body, w.length = 12 + body.length ∧ be ((w.drop 8).take 4) = body.length ∧
+      ∀ rest, readMrtCommon (w ++ rest) = some (ts, ty, st, body, rest) := by
+  have key : ∀ ts code sub body, ts < 4294967296 → code < 65536 → sub < 65536 → w = mrtRecord ts code sub body →
+      w.length = 12 + body.length ∧ be ((w.drop 8).take 4) = body.length ∧
+        ∀ rest, readMrtCommon (w ++ rest) = some (ts, code, sub, body, rest) := by
+    intro ts code sub body h1 h2 h3 hw
+    have hlen : w.length = 12 + body.length := by subst hw; simp [mrtRecord]; omega
+    refine ⟨hlen, ?_, fun rest => by
+      subst hw; exact readMrtCommon_mrtRecord ts code sub body rest h1 h2 h3 (by omega)⟩
+    subst hw
+    simp only [mrtRecord, u32, u16, List.cons_append, List.nil_append, List.drop_succ_cons, List.drop_zero]
+    have : ∀ (a b c d : Nat) (t : Bytes), List.take 4 (a :: b :: c :: d :: t) = [a, b, c, d] := by
+      intros; rfl
+    rw [this]
+    have := be_u32_lt (n := body.length) (by omega)
+    simpa [u32] using this
+  cases r with
+  | mrtMp h ap emb mon =>
+    cases emb with
+    | none => cases he
+    | some b =>
+      have hsub : mpSubtype h.asn4 ap < 65536 := by cases ap <;> simp [mpSubtype]
+      exact ⟨_, _, _, _, key 0 16 _ _ (by omega) (by omega) hsub (by simpa [Rec.encode] using he.symm)⟩
+  | tdPeers ts rid peers =>
+    exact ⟨_, _, _, _, key ts 13 1 _ hts (by omega) (by omega) (by simpa [Rec.encode] using he.symm)⟩
+  | tdRib v6 ts seq mask addr ents =>
+    cases hp : encodePrefix mask addr with
+    | none => simp [Rec.encode, hp] at he
+    | some p =>
+      cases hes : writeRibEntries v6 ents with
+      | none => simp [Rec.encode, hp, hes] at he
+      | some es =>
+        have hsub : (if v6 then 4 else 2) < 65536 := by cases v6 <;> simp
+        exact ⟨_, _, _, _, key ts 13 _ _ hts (by omega) hsub (by simpa [Rec.encode, hp, hes] using he.symm)⟩
+  | bmpRm => cases hb
+  | bmpUp => cases hb
+  | bmpDown => cases hb
+  | bmpInit => cases hb
+  | bmpStats => cases hb
+  | bmpTerm => cases hb
+  | bmpMirror => cases hb
+
+theorem mrt_afi_matches_addrs_proof (h : MpHdr) (h4 : h.asn4 = true) (hw : ipWf h.raddr = true ∧ ipWf h.laddr = true)
+    (hfam : h.laddr.isV6 = h.raddr.isV6) (ap : Bool) :
+    h.encode = u32 h.rasn ++ (u32 h.lasn ++ (u16 h.ifidx ++ (u16 (if h.raddr.isV6 then 2 else 1) ++
+      (h.raddr.bytes ++ h.laddr.bytes)))) ∧
+    h.raddr.bytes.length = (if h.raddr.isV6 then 16 else 4) ∧
+    h.laddr.bytes.length = (if h.raddr.isV6 then 16 else 4) ∧
+    bgp4mpSubtype (mpSubtype h.asn4 ap) = some (4, ap) := by
+  obtain ⟨hr, hl⟩ := hw
+  refine ⟨?_, ?_, ?_, by cases ap <;> simp [mpSubtype, bgp4mpSubtype]⟩
+  · cases ha : h.raddr <;> cases hb : h.laddr <;> simp_all [MpHdr.encode, Ip.isV6, Ip.bytes]
+  · cases ha : h.raddr <;> simp_all [ipWf, Ip.isV6, Ip.bytes]
+  · cases ha : h.raddr <;> cases hb : h.laddr <;> simp_all [ipWf, Ip.isV6, Ip.bytes]
+
 end Rbgp.Mon2.Proofs
